@@ -34,6 +34,20 @@ let handle (f : string array) : string =
                              (if m1 && m2 then "1" else "0"); (if direct then "1" else "0")]
         | r -> fail r)
      | r -> fail r)
+  | "T" ->
+    (* what the property says the TLS suites compute: GCM-AE with IV = implicit || explicit, record = C || T *)
+    let steps = List.map (fun st ->
+      match String.split_on_char ':' st with
+      | [_; key; fixed; explicit; aad; pt] ->
+        (bytes_of_hex key, bytes_of_hex fixed @ bytes_of_hex explicit, bytes_of_hex aad, bytes_of_hex pt)
+      | _ -> failwith "bad step") (split_list f.(2)) in
+    let rec go acc = function
+      | [] -> "ok " ^ String.concat "," (List.rev acc)
+      | (key, iv, aad, pt) :: rest ->
+        (match sm4GCM e key iv pt aad true with
+         | Ok (c, t) -> go ((hex_of_bytes (c @ t) ^ "/1/1") :: acc) rest
+         | r -> fail r) in
+    go [] steps
   | "B" -> "SKIP"   (* 64 KiB cases of the quick tier: checked against crypto/cipher and the python GCM only *)
   | "V" ->
     let key = bytes_of_hex f.(2) and iv = bytes_of_hex f.(3) and a = bytes_of_hex f.(4) and c = bytes_of_hex f.(5) in
